@@ -77,7 +77,8 @@ def asset_specs(asset: str, kinds: Sequence[str], shift: int, zones: bool = Fals
     return rows
 
 
-def build_case(k1: Sequence[str], k2: Optional[Sequence[str]], window: Tuple[Optional[date], Optional[date]], country: str, zones: bool = False) -> Dict[str, Any]:
+def build_case(k1: Sequence[str], k2: Optional[Sequence[str]], window: Tuple[Optional[date], Optional[date]], country: str, zones: bool = False,
+               method: str = "fifo") -> Dict[str, Any]:
     from rp2verif import frdriver as D
 
     assets = {"B1": asset_specs("B1", k1, 0, zones)}
@@ -86,8 +87,8 @@ def build_case(k1: Sequence[str], k2: Optional[Sequence[str]], window: Tuple[Opt
     sheets = {}
     for a in list(assets):
         sheets[a], assets[a] = D.to_sheet(assets[a], a)
-    return {"label": f"rp2_{country} B1={'+'.join(k1)}" + (f" B2={'+'.join(k2)}" if k2 is not None else "") + f" -f {window[0]} -t {window[1]}" + (" [offsets]" if zones else ""),
-            "zones": zones, "k1": list(k1), "k2": list(k2) if k2 is not None else None, "assets": assets, "sheets": sheets, "schedule": [(1970, "fifo")], "from": window[0], "to": window[1],
+    return {"label": f"rp2_{country} B1={'+'.join(k1)}" + (f" B2={'+'.join(k2)}" if k2 is not None else "") + f" -f {window[0]} -t {window[1]}" + (" [offsets]" if zones else "") + (f" [{method}]" if method != "fifo" else ""),
+            "zones": zones, "method": method, "k1": list(k1), "k2": list(k2) if k2 is not None else None, "assets": assets, "sheets": sheets, "schedule": [(1970, method)], "from": window[0], "to": window[1],
             "country": country, "lang": "en" if country == "us" else "en_IE", "reports": [f"tax_report_{country}"], "allow_negative": True}
 
 
@@ -184,13 +185,19 @@ def check(case: Dict[str, Any], res: Dict[str, Any]) -> Tuple[List[str], Dict[st
     return problems, counts
 
 
+def D_jsonable(case: Dict[str, Any]) -> Dict[str, Any]:
+    from rp2verif import frdriver as D
+
+    return D.jsonable(case)
+
+
 def judge(st: Stats, case: Dict[str, Any]) -> None:
     from rp2verif.seams import generator as G
 
     st.inc("evaluations")
     res = G.run(case)
-    payload = {"case": {"k1": case["k1"], "k2": case["k2"], "from": str(case["from"]) if case["from"] else None, "to": str(case["to"]) if case["to"] else None,
-                        "country": case["country"], "zones": case.get("zones", False)}}
+    payload = {"full_case": True, "case": D_jsonable(case)} if case.get("bundled") else {"case": {"k1": case["k1"], "k2": case["k2"], "from": str(case["from"]) if case["from"] else None, "to": str(case["to"]) if case["to"] else None,
+                        "country": case["country"], "zones": case.get("zones", False), "method": case.get("method", "fifo")}}
     tag = case["label"]
     if res["error"]:
         st.violation(dict(payload, signature=f"C14 no report: {res['stage']} / {res['error'].split(':')[0]}", what=f"{tag} :: {res['stage']}: {res['error'][:200]}"))
@@ -198,7 +205,7 @@ def judge(st: Stats, case: Dict[str, Any]) -> None:
     problems, counts = check(case, res)
     for k, v in counts.items():
         st.inc(k, v)
-    if case["k2"] is not None:
+    if case.get("k2") is not None or case.get("bundled"):
         st.inc("distinct_nontrivial")
     if problems:
         first = problems[0]
@@ -219,6 +226,9 @@ def cases(tier: str) -> List[Dict[str, Any]]:
             out.append(build_case(list(KINDS), list(reversed(KINDS)), w, country, zones=True))
             for k in KINDS:
                 out.append(build_case([k], [KINDS[(KINDS.index(k) + 5) % len(KINDS)]], w, country, zones=True))
+            # the other methods pair every disposal with the lots in another order (the two covering lots differ in age and price)
+            for m in ("lifo", "hifo", "lofo") if country == "us" else ():  # rp2_ie accepts fifo only
+                out.append(build_case(list(KINDS), list(reversed(KINDS)), w, country, method=m))
             for k1 in KINDS:
                 for k2 in KINDS:
                     out.append(build_case([k1], [k2], w, country))
@@ -228,6 +238,11 @@ def cases(tier: str) -> List[Dict[str, Any]]:
                 pairs = [p for i, p in enumerate(pairs) if i % 4 == WINDOWS.index(w)]
             for a, b in pairs:
                 out.append(build_case([a, b], None, w, country))
+    # the data of the 9 inputs bundled with RP2 (all their asset sheets in one run)
+    from rp2verif import frdriver as D
+
+    out += D.bundled_cases(["tax_report_us"], methods=("fifo", "hifo") if tier == "quick" else ("fifo", "lifo", "hifo", "lofo"))
+    out += D.bundled_cases(["tax_report_ie"], methods=("fifo",), country="ie", lang="en_IE")
     if tier == "thorough":
         for country in ("us", "ie"):
             for k1 in KINDS:
@@ -295,7 +310,13 @@ def replay(path: str) -> int:
     with open(path, encoding="utf-8") as f:
         p = json.load(f)
     c = p["case"]
-    case = build_case(c["k1"], c["k2"], (date.fromisoformat(c["from"]) if c["from"] else None, date.fromisoformat(c["to"]) if c["to"] else None), c["country"], c.get("zones", False))
+    if p.get("full_case"):
+        from rp2verif import frdriver as D
+
+        case = D.from_json(c)
+    else:
+        case = build_case(c["k1"], c["k2"], (date.fromisoformat(c["from"]) if c["from"] else None, date.fromisoformat(c["to"]) if c["to"] else None), c["country"], c.get("zones", False),
+                          c.get("method", "fifo"))
     ctx = mp.get_context("fork")
     with ctx.Pool(1, initializer=init) as pool:
         st = pool.apply(worker, ([case],))
